@@ -386,6 +386,12 @@ pub fn c12_cases(rng: &mut Rng, tier: &str) -> (Vec<Case>, bool) {
         (&["10 A$ = \"total\"", "20 total = 3 : PRINT TOTAL; A$"], &["10 a$ = \"total\"", "20 TOTAL = 3 : print total; A$"]),
         (&["10 REM x", "20 x = 2 : PRINT X"], &["10 rem x", "20 X = 2 : PRINT x"]),
         (&["10 INPUT n$", "20 hello = 4 : PRINT HELLO; N$"], &["10 input N$", "20 HELLO = 4 : print hello; n$"]),
+        // blanks around DATA items, where an EARLIER line's literal text (a remark, a string, a reply) spells the item together
+        // with those blanks
+        (&["10 REM FRUIT", "20 DATA APPLE, FRUIT", "30 READ A$, B$ : PRINT \"[\"; B$; \"]\""], &["10 REM FRUIT", "20 DATA APPLE,FRUIT", "30 READ A$, B$ : PRINT \"[\"; B$; \"]\""]),
+        (&["10 PRINT \"AGE \";", "20 DATA NAME,AGE :", "30 READ A$, B$ : PRINT \"[\"; B$; \"]\""], &["10 PRINT \"AGE \";", "20 DATA NAME,AGE:", "30 READ A$, B$ : PRINT \"[\"; B$; \"]\""]),
+        (&["10 A$ = \" x \" : B$ = \"x \" : C$ = \" x\"", "20 DATA  x , x", "30 READ P$, Q$ : PRINT \"[\"; P$; \"|\"; Q$; \"]\""], &["10 A$ = \" x \" : B$ = \"x \" : C$ = \" x\"", "20 DATA x,x", "30 READ P$, Q$ : PRINT \"[\"; P$; \"|\"; Q$; \"]\""]),
+        (&["10 INPUT n$", "20 DATA  hello , hello", "30 READ P$, Q$ : PRINT \"[\"; P$; \"|\"; Q$; \"]\""], &["10 INPUT n$", "20 DATA hello,hello", "30 READ P$, Q$ : PRINT \"[\"; P$; \"|\"; Q$; \"]\""]),
     ];
     for (a, b) in pairs {
         let mut w = crate::prog::Walk::new(false, false);
@@ -399,7 +405,7 @@ pub fn c12_cases(rng: &mut Rng, tier: &str) -> (Vec<Case>, bool) {
             }
             w.start("RUN");
             let mut nr = 0;
-            w.drive(&["hello".to_string()], &mut nr, 40, false);
+            w.drive(&[" hello ".to_string()], &mut nr, 40, false);
             w.op("take");
             w.start("LIST");
             w.op("take");
